@@ -9,6 +9,7 @@ func init() {
 	vpRegister("c16_containers", vpH_c16_containers)
 	vpRegister("c16_inline_struct", vpH_c16_inline_struct)
 	vpRegister("c16_tags", vpH_c16_tags)
+	vpRegister("c16_reuse", vpH_c16_reuse)
 }
 
 type vpT1 struct {
@@ -495,6 +496,21 @@ func vpH_c16_tags() {
 		b.set("rest", inner)
 	}
 
+	// keys that differ from a field's key only in case are nobody's key
+	caseKind := vpInt(0, 3)
+	caseKey := ""
+	switch caseKind {
+	case 1:
+		caseKey = "Flagged"
+	case 2:
+		caseKey = "FLOW"
+	case 3:
+		caseKey = "Named"
+	}
+	if caseKind != 0 {
+		b.set(caseKey, "cv")
+	}
+
 	dst := vpT5{Flagged: "SF", Named: "SN", Flow: []string{"S"}}
 	err := Unmarshal(b.m, &dst)
 	vpAssert(err == nil, "well-typed input unmarshals without error")
@@ -530,6 +546,99 @@ func vpH_c16_tags() {
 			vpAssert(isMap && im.Len() == 1, "... also when its value is a mapping (not flattened into the inline map)")
 		}
 	}
+	if caseKind != 0 {
+		want++
+		cv, cok := dst.Rest[caseKey]
+		vpAssert(cok && cv == any("cv"), "a key that differs from a field's key only in case goes to the inline map")
+	}
 	v, ok := dst.Rest[free]
 	vpAssert(ok && v == any("f") && len(dst.Rest) == want, "keys no field names go to the inline map, and nothing else does")
+}
+
+// ---- a sequence of mappings decoded into a list the caller reuses ----
+
+type vpItem struct {
+	Name string         `yaml:"name"`
+	Tags []string       `yaml:"tags"`
+	Next *vpInner       `yaml:"next"`
+	Rest map[string]any `yaml:",inline"`
+}
+
+func vpItemDoc(withAll bool) (*MapSA, bool, bool, bool, bool, string) {
+	m := NewMap[string, any](0)
+	hasName, hasTags, hasNext, hasShape := withAll || vpBool(), withAll || vpBool(), withAll || vpBool(), withAll || vpBool()
+	v := vpStr(1, "x-z")
+	if hasName {
+		m.Set("name", v)
+	}
+	if hasTags {
+		m.Set("tags", []any{v})
+	}
+	if hasNext {
+		in := NewMap[string, any](1)
+		in.Set("x", v)
+		m.Set("next", in)
+	}
+	if hasShape {
+		m.Set("shape", v)
+	}
+	return m, hasName, hasTags, hasNext, hasShape, v
+}
+
+// Every item of a sequence is decoded on its own: what an item does not
+// mention stays at its zero value, whatever the destination list held before -
+// a nil list, a list with spare capacity left from an earlier document
+// (truncated to reuse it), or a list whose first elements are kept.
+func vpH_c16_reuse() {
+	var items []vpItem
+	history := vpInt(0, 3)
+	keep := 0
+	if history != 0 {
+		a, _, _, _, _, _ := vpItemDoc(true)
+		c, _, _, _, _, _ := vpItemDoc(true)
+		a.Set("colour", "red")
+		first := []any{a, c}
+		if history == 3 {
+			first = append(first, c)
+		}
+		err := Unmarshal(first, &items)
+		vpAssert(err == nil && len(items) == len(first), "the earlier document decodes")
+		if history == 2 {
+			keep = 1
+		}
+		items = items[:keep]
+	}
+	d, hasName, hasTags, hasNext, hasShape, v := vpItemDoc(false)
+	doc := []any{d}
+	two := vpBool()
+	if two {
+		doc = append(doc, NewMap[string, any](0))
+	}
+	err := Unmarshal(doc, &items)
+	vpAssert(err == nil, "the document decodes")
+	vpAssert(len(items) == keep+len(doc), "one item per element of the sequence, after the items kept")
+	if keep == 1 {
+		vpAssert(items[0].Name != "" && len(items[0].Tags) == 1 && items[0].Rest["colour"] == any("red"), "items the caller kept are as they were")
+	}
+	it := items[keep]
+	vpAssert(it.Name == vpStrOr(v, hasName, ""), "name: the item's own value, or the zero value when the item does not mention it")
+	if hasTags {
+		vpAssert(len(it.Tags) == 1 && it.Tags[0] == v, "tags: exactly the item's own")
+	} else {
+		vpAssert(len(it.Tags) == 0, "tags: none when the item does not mention them")
+	}
+	if hasNext {
+		vpAssert(it.Next != nil && it.Next.X == v && it.Next.Y == "", "nested struct: the item's own")
+	} else {
+		vpAssert(it.Next == nil, "nested struct: absent when the item does not mention it")
+	}
+	if hasShape {
+		vpAssert(len(it.Rest) == 1 && it.Rest["shape"] == any(v), "inline map: exactly the item's own unknown keys")
+	} else {
+		vpAssert(len(it.Rest) == 0, "inline map: empty when the item has no unknown keys")
+	}
+	if two {
+		e := items[keep+1]
+		vpAssert(e.Name == "" && len(e.Tags) == 0 && e.Next == nil && len(e.Rest) == 0, "an empty item decodes to the zero value")
+	}
 }
